@@ -40,7 +40,8 @@ RULE = ("(h) histories (op hist): 1-2 BorderRelocator objects on one Mask2D obje
         "1e-6 band between non-identical coordinates is skipped and counted (kind skipped_band). distinct = distinct JSON "
         "input; non-trivial = not skipped, not an empty grid.")
 EXHAUSTIVE = {
-    "quick": "all boolean masks of all shapes with H*W <= 9 (sub_border_slim with sub-size 1, 2 and one random {1,2,4} map; "
+    "quick": "hand-made histories replays/C18/corpus/hist_*.json (relocate G1 then mesh of G2: direct / AbstractMesh / preloaded mapper; "
+             "relocate-edit-relocate; two objects of one mask with permuted sub-size maps); all boolean masks of all shapes with H*W <= 9 (sub_border_slim with sub-size 1, 2 and one random {1,2,4} map; "
              "border_slim_indexes_from); util relocation: all 3-point borders on the {-1,0,1}^2 lattice against all 25 points of "
              "{-2..2}^2",
     "thorough": "as quick with H*W <= 11 and all 3- and 4-point borders on the {-1,0,1}^2 lattice",
@@ -271,7 +272,7 @@ def _gen_inputs(tier, rng):
                 yield {"op": "subborder", "mask": m, "sub": {"kind": "ndarray", "v": [rng.choice([1, 2, 4]) for _ in range(n)]},
                        "via": "util" if (n + w) % 2 else "class"}
     # ---- (b), (c) random masks through the public classes
-    for i in range(1200 if big else 150):
+    for i in range(1200 if big else 120):
         while True:
             m = rand_mask(rng); n = npix(m); sub = rand_sub(rng, n); subs = sub_list(sub, n)
             if sum(v * v for v in subs) <= (64 if big else 40): break
@@ -429,6 +430,8 @@ def run_hist(aa, inp, skipped):
         obj, own = make_container(aa, v["container"], arr16(v["pts"], den), mask)
         meshes.append([obj, Fs(v["pts"], den), own])
     ok = True; notes = []; terms = []; outs = []; done = 0
+    # ONE mesh object per kind for the whole history (AbstractMesh.relocated_grid_from and relocated_mesh_grid_from are called
+    # on the same Delaunay object; the mappers on the Delaunay / Voronoi / Rectangular objects)
     MESH = {"Delaunay": aa.mesh.Delaunay(), "Voronoi": aa.mesh.Voronoi(), "Rectangular": aa.mesh.Rectangular(shape=(3, 3))}
     def same(obj, cont): return bool((np.array(obj).reshape(-1, 2) == arrF(cont)).all()) if len(cont) else True
     def audit(tag):
@@ -499,7 +502,7 @@ def run_hist(aa, inp, skipped):
             vobj, vc, _ = meshes[st["v"]]
             if in_band_F(vc, border_of(gc, rr)): STATS["skipped_band"] += 1; continue
             if st["via"] == "rel": f = lambda: pts_out(rels[r].relocated_mesh_grid_from(grid=gobj, mesh_grid=vobj))
-            else: f = lambda: pts_out(MESH["Voronoi"].relocated_mesh_grid_from(
+            else: f = lambda: pts_out(MESH["Delaunay"].relocated_mesh_grid_from(
                 border_relocator=rels[r], source_plane_data_grid=gobj, source_plane_mesh_grid=vobj))
             out = call_res(f)
             terms.append(f"(@CMesh QOps {cnat(r)} {cptsF(gc)} {cptsF(vc)}, @OPts QOps {cres_pts(out)})"); outs.append(out)
